@@ -3,7 +3,7 @@ CONSTANTS
   MaxDiff = 2
   BaseNames = {"default"}
   PolSet = {TRUE, FALSE}
-  AllowChoose = FALSE
+  Acts = {"validate", "save", "load", "open", "close", "tamper"}
 INVARIANT Inv
 PROPERTIES RejectedSaveWritesNothing BadManifestFailsOpen FailedOpenChangesNothing
 CHECK_DEADLOCK FALSE
